@@ -11,3 +11,4 @@ import FpVerif.Properties.C02
 #print axioms Fp.C02.grease_version
 #print axioms Fp.C02.ja4_form
 #print axioms Fp.C02.count_saturates
+#print axioms Fp.C02.header_delivered
